@@ -139,6 +139,38 @@ func c13S1Old() string {
 	return strings.Join(outs, " ")
 }
 
+// S1-two-loaders: the built-in walker pushes from several goroutines at once; the item builder of core.go numbers the
+// items with an unsynchronised counter and relies on Push to serialise it: the k-th item must have ordinal k.
+func c13S1TwoLoaders() string {
+	e := schedNewEnv()
+	done := make(chan bool, 2)
+	for w := 0; w < 2; w++ {
+		w := w
+		vsched.Go(func() {
+			for i := 0; i < 3; i++ {
+				e.cl.Push([]byte(fmt.Sprintf("w%d-%d", w, i)))
+			}
+			vsched.Send(done, true)
+		})
+	}
+	vsched.Recv(done)
+	vsched.Recv(done)
+	snap, count, _ := e.cl.Snapshot(0)
+	if count != 6 {
+		return fmt.Sprintf("BAD count %d", count)
+	}
+	k := int32(0)
+	for _, ch := range snap {
+		for i := 0; i < ch.count; i++ {
+			if ch.items[i].Index() != k {
+				return fmt.Sprintf("BAD item at position %d has ordinal %d", k, ch.items[i].Index())
+			}
+			k++
+		}
+	}
+	return "ordinals-follow-positions"
+}
+
 // S2: a canceller may set reqReset at any point of a scan: the scan is either cancelled (and publishes
 // nothing) or complete. Never a partial result.
 func c13S2() string {
@@ -372,7 +404,7 @@ func c13Run(t *testing.T, layer string, scs []schedScenario, q, th int) {
 }
 
 func TestVerif_C13_S1(t *testing.T) {
-	c13Run(t, "S1-snapshot-isolation", []schedScenario{{"S1", c13S1(0), schedBadPrefix}, {"S1-tail", c13S1(3), schedBadPrefix}, {"S1-old-snapshots", c13S1Old, schedBadPrefix}}, 2, 3)
+	c13Run(t, "S1-snapshot-isolation", []schedScenario{{"S1", c13S1(0), schedBadPrefix}, {"S1-tail", c13S1(3), schedBadPrefix}, {"S1-old-snapshots", c13S1Old, schedBadPrefix}, {"S1-two-loaders", c13S1TwoLoaders, schedBadPrefix}}, 2, 3)
 }
 func TestVerif_C13_S2(t *testing.T) {
 	c13Run(t, "S2-cancellation", []schedScenario{{"S2", c13S2, schedBadPrefix}, {"S2-loop", c13S2Loop, schedBadPrefix}, {"S2-slab", c13S2Slab, schedBadPrefix}}, 2, 3)
